@@ -5,6 +5,7 @@ package main
 import (
 	"bytes"
 	"fmt"
+	"io"
 	"math/big"
 	"strconv"
 	"strings"
@@ -222,6 +223,83 @@ func (c *c08ctx) checkPack(s []byte, viaModel bool) {
 	if alt, err := packedDecoderSeptets(packed); err == nil && !bytes.Equal(alt, got) {
 		res.Violate("C08.entry-points-disagree:unpack", fmt.Sprintf("packed stream decoder sees %s, Unpack gives %s", hx(alt), hx(got)), []string{uop})
 	}
+	// the four stream transformers through destination buffers of every awkward size
+	if len(s) > 0 && (len(s) <= 24 || viaModel) && len(s) <= 400 {
+		if text, err := gsm.Decode(s); err == nil {
+			c.tinyAgrees("packed-stream-encoder", func() transform.Transformer { return gsm.GSM7(true).NewEncoder() }, text, op)
+			c.tinyAgrees("unpacked-stream-encoder", func() transform.Transformer { return gsm.GSM7(false).NewEncoder() }, text, op)
+		}
+		c.tinyAgrees("packed-stream-decoder", func() transform.Transformer { return gsm.GSM7(true).NewDecoder() }, packed, uop)
+		c.tinyAgrees("unpacked-stream-decoder", func() transform.Transformer { return gsm.GSM7(false).NewDecoder() }, s, op)
+	}
+}
+
+// driveTiny runs a transformer by hand, as the transform contract describes, with a destination that
+// starts at k octets and grows by one whenever the transformer reports ErrShortDst without progress.
+func driveTiny(t transform.Transformer, src []byte, k int) (out []byte, err error, panicked bool) {
+	defer func() {
+		if r := recover(); r != nil {
+			panicked = true
+		}
+	}()
+	t.Reset()
+	pos := 0
+	for iter := 0; iter < 4*len(src)+64; iter++ {
+		dst := make([]byte, k)
+		nDst, nSrc, e := t.Transform(dst, src[pos:], true)
+		if nDst < 0 || nDst > len(dst) || nSrc < 0 || nSrc > len(src)-pos {
+			return out, fmt.Errorf("counts out of range: nDst=%d nSrc=%d", nDst, nSrc), false
+		}
+		out = append(out, dst[:nDst]...)
+		pos += nSrc
+		switch e {
+		case nil:
+			if pos != len(src) {
+				return out, fmt.Errorf("success with %d of %d source octets consumed", pos, len(src)), false
+			}
+			return out, nil, false
+		case transform.ErrShortDst:
+			if nDst == 0 && nSrc == 0 {
+				k++
+			}
+		default:
+			return out, e, false
+		}
+	}
+	return out, fmt.Errorf("no progress"), false
+}
+
+// tinyAgrees: the transformer driven through tiny destination buffers gives what transform.Bytes gives
+func (c *c08ctx) tinyAgrees(name string, mk func() transform.Transformer, src []byte, op string) {
+	want, _, werr := transform.Bytes(mk(), src)
+	// through x/text's stream adapters, which rely on the octet counts the transformer reports
+	if len(src) > 0 {
+		got, err := io.ReadAll(transform.NewReader(bytes.NewReader(src), mk()))
+		c.res.Eval(fmt.Sprintf("reader/%s/%s", name, hx(src)), true)
+		if (err != nil) != (werr != nil) || (err == nil && !bytes.Equal(got, want)) {
+			c.res.Violate("C08.entry-points-disagree:"+name, fmt.Sprintf("%s behind transform.NewReader on %s gives %s (err=%v), in one piece %s (err=%v)", name, hx(src), hx(got), err, hx(want), werr), []string{op})
+			return
+		}
+		var buf bytes.Buffer
+		wr := transform.NewWriter(&buf, mk())
+		_, e1 := wr.Write(src)
+		e2 := wr.Close()
+		if (e1 != nil || e2 != nil) != (werr != nil) || (e1 == nil && e2 == nil && !bytes.Equal(buf.Bytes(), want)) {
+			c.res.Violate("C08.entry-points-disagree:"+name, fmt.Sprintf("%s behind transform.NewWriter on %s gives %s (err=%v/%v), in one piece %s (err=%v)", name, hx(src), hx(buf.Bytes()), e1, e2, hx(want), werr), []string{op})
+			return
+		}
+	}
+	for _, k := range []int{0, 1, 2, len(src) / 2, len(src) - 1, len(src), len(src) + 1} {
+		if k < 0 {
+			continue
+		}
+		got, err, pn := driveTiny(mk(), src, k)
+		c.res.Eval(fmt.Sprintf("tiny/%s/%d/%s", name, k, hx(src)), true)
+		if pn || (err != nil) != (werr != nil) || (err == nil && !bytes.Equal(got, want)) {
+			c.res.Violate("C08.entry-points-disagree:"+name, fmt.Sprintf("%s driven with a %d-octet destination on %s gives %s (err=%v panic=%v), in one piece %s (err=%v)", name, k, hx(src), hx(got), err, pn, hx(want), werr), []string{op})
+			return
+		}
+	}
 }
 
 // packedEncoderBytes runs the packed stream transformer on the text that encodes to exactly these septets.
@@ -250,7 +328,7 @@ func packedDecoderSeptets(packed []byte) ([]byte, error) {
 }
 
 func runC08(res *Result, d *Driver, g *Rng, tier string) {
-	res.Rule = "alphabet: every code point (quick: 0..0x2FFF, all of TS 23.038's characters, surrogate/astral samples; thorough: all 1,114,112) and all 256x256 septet pairs; packing: all septet sequences of length 0..2 (thorough 0..3), all sequences up to length 5 (thorough 8) over {00,01,0d,1b,3f,40,7f}, the three septets around every block boundary for lengths 1..40, random sequences to 2000, one-bit wiring for every bit of every length 0..64; non-trivial = distinct non-empty input"
+	res.Rule = "alphabet: every code point (quick: 0..0x2FFF, all of TS 23.038's characters, surrogate/astral samples; thorough: all 1,114,112) and all 256x256 septet pairs; packing: all septet sequences of length 0..2 (thorough 0..3), all sequences up to length 5 (thorough 8) over {00,01,0d,1b,3f,40,7f}, the three septets around every block boundary for lengths 1..40, random sequences to 2000, one-bit wiring for every bit of every length 0..64; the four stream transformers behind transform.NewReader / NewWriter and driven by hand through destination buffers of 0, 1, 2, n/2, n-1, n, n+1 octets; non-trivial = distinct non-empty input"
 	thorough := tier == "thorough"
 	c := &c08ctx{res: res}
 	// --- alphabet, forward ---
